@@ -55,10 +55,10 @@ def generate(rng, focus, tier="quick"):
     # a long-lived host process: so many orders went through another broker object before the run that any
     # process-wide counter is about to gain a digit / wrap (just below a power of ten or of two)
     plan["prior_orders"] = None
-    if rng.random() < 0.5:
-        # "aim": where among the orders of the repeated run the counter reaches the boundary (a fraction of them)
-        plan["prior_orders"] = {"boundary": rng.choice([10 ** 5, 10 ** 6, 10 ** 6, 10 ** 6, 2 ** 16, 2 ** 20]),
-                                "aim": round(rng.random(), 3)}
+    if rng.random() < 0.45:
+        # "aims": where among the orders of a repeated run the process-wide count of orders reaches each boundary
+        # (a fraction of that run's orders), for 2**16, 10**5, 10**6 and 2**20 in turn
+        plan["prior_orders"] = {"aims": [round(rng.random(), 3) for _ in range(4)]}
     return plan
 
 
@@ -237,19 +237,27 @@ def _run(plan, ctx, child):
             from qstrader.exchange.simulated_exchange import SimulatedExchange
             from qstrader.execution.order import Order
             po = plan["prior_orders"]
-            # the run once (its orders count too), then throw-away orders on a host broker up to just below the
-            # boundary, then the run again: the boundary is crossed somewhere among its orders
+            # the run once (its orders count too); then, for each boundary in ascending order: throw-away orders on a
+            # host broker up to just below it and the run again, so that the boundary is crossed among its orders
             first = plain_digest(cfg, market, uuid_seed=us + 30)
             n = len(first[1].get("fills", []))
-            j = 1 + int(po["aim"] * max(1, n))
             t0 = ts(cfg["start"])
             host = SimulatedBroker(t0, SimulatedExchange(t0), None, account_id="host")
             host.create_portfolio("scratch", "scratch")
             o = Order(t0, "EQ:ZZZ", 1)
-            for _ in range(max(0, int(po["boundary"]) - n - j)):
-                host.submit_order("scratch", o)
-            second = plain_digest(cfg, market, uuid_seed=us + 31)
-            return second if second[0] != first[0] else first
+            done = n
+            worst = first
+            for k_, boundary in enumerate((2 ** 16, 10 ** 5, 10 ** 6, 2 ** 20)):
+                j = 1 + int(po["aims"][k_] * max(1, n))
+                for _ in range(max(0, boundary - j - done)):
+                    host.submit_order("scratch", o)
+                done = max(done, boundary - j)
+                again = plain_digest(cfg, market, uuid_seed=us + 31 + k_)
+                done += n
+                if again[0] != first[0]:
+                    worst = again
+                    break
+            return worst
         d8, p8 = forked(variant_h)
         ctx.fault("many_orders_on_another_broker_before")
     # (i) uninitialised memory made visible: numpy's empty()/empty_like() hand out arrays filled with a sentinel
